@@ -1,4 +1,5 @@
 use crate::errors::SwiftValidationError;
+use crate::fields::swift_utils::currency_prefix;
 use crate::fields::*;
 use crate::parser::utils::*;
 use serde::{Deserialize, Serialize};
@@ -176,11 +177,7 @@ impl MT940 {
 
     /// Get first two characters of a currency code
     fn get_currency_prefix(currency: &str) -> &str {
-        if currency.len() >= 2 {
-            &currency[0..2]
-        } else {
-            currency
-        }
+        currency_prefix(currency)
     }
 
     // ========================================================================
